@@ -1835,3 +1835,409 @@ Proof.
   assert (Hl : (r_term r <? m_term m) = true) by (apply N.ltb_lt; exact L).
   rewrite Hz, Hl, D in H. cbn [bind] in H. okinv H. split; reflexivity.
 Qed.
+
+(* ------------------------------------------------------------------ *)
+(* a pre-candidate's tick: wait, or time out and run the pre-vote campaign again *)
+
+Lemma set_elapsed_twice (r : raft) a b :
+  r <| r_election_elapsed := a |> <| r_election_elapsed := b |> = r <| r_election_elapsed := b |>.
+Proof. destruct r; reflexivity. Qed.
+
+Theorem precandidate_tick r r' b :
+  r_state r = PreCandidate -> r_pre_vote r = true -> ~ self_wins r ->
+  tick r = Ok (r', b) ->
+  r_term r' = r_term r /\ r_vote r' = r_vote r /\ r_state r' = PreCandidate /\
+  ((b = false /\ r' = r <| r_election_elapsed := r_election_elapsed r + 1 |>) \/
+   (b = true /\ r_randomized_election_timeout r <= r_election_elapsed r + 1 /\
+    r_promotable r = true /\
+    (r' = r <| r_election_elapsed := 0 |> \/
+     campaign_pre (r <| r_election_elapsed := 0 |>) = Ok r'))).
+Proof.
+  intros Hs Hpv Hw. unfold tick. rewrite Hs. unfold tick_election. intros H.
+  dtop H.
+  { okinv H. cbn. rewrite Hs. repeat split. left. split; reflexivity. }
+  apply orb_false_iff in Heqb0. destruct Heqb0 as [Hp Hq].
+  apply negb_false_iff in Hp, Hq. unfold pass_election_timeout in Hp. cbn in Hp, Hq.
+  apply N.leb_le in Hp.
+  rewrite set_elapsed_twice in H.
+  ib H y Hy. okinv H. destruct y as [r1 c1]. cbn [fst].
+  rewrite step_eq in Hy. unfold step_pre in Hy.
+  change (m_term (new_message INVALID_ID MsgHup (Some (r_id (r <| r_election_elapsed := 0 |>)))))
+    with 0 in Hy.
+  change (0 =? 0) with true in Hy. cbn [bind] in Hy. unfold step_body in Hy.
+  change (m_type (new_message INVALID_ID MsgHup (Some (r_id (r <| r_election_elapsed := 0 |>)))))
+    with MsgHup in Hy.
+  change (MsgHup =? MsgHup) with true in Hy. cbv iota in Hy.
+  ib Hy z Hz. okinv Hy. apply hup_cases in Hz.
+  destruct Hz as [->|(_ & _ & Hc)].
+  - cbn. rewrite Hs. repeat split. right. auto.
+  - cbn in Hc. rewrite Hpv in Hc.
+    pose proof (campaign_pre_pending _ _ Hc Hw) as (A1 & A2 & A3 & _).
+    cbn in A1, A2. repeat split; try assumption. right. auto.
+Qed.
+
+(* ------------------------------------------------------------------ *)
+(* executable checkers for the trace hypotheses (used by the non-vacuity examples) *)
+
+Definition vote_res_eqb (a b : vote_res) : bool :=
+  match a, b with
+  | VotePending, VotePending | VoteLost, VoteLost | VoteWon, VoteWon => true
+  | _, _ => false
+  end.
+
+Lemma vote_res_eqb_eq a b : vote_res_eqb a b = true <-> a = b.
+Proof. destruct a, b; cbn; split; intros H; try discriminate; reflexivity. Qed.
+
+Definition self_winsb (r : raft) : bool := vote_res_eqb (tally r [(r_id r, true)]) VoteWon.
+
+Definition quietb (r : raft) (i : input) : bool :=
+  match i with
+  | ITick => negb (self_winsb r)
+  | IStep m =>
+      ((m_term m <=? r_term r) || exempt m || lease_drop r m)
+      && negb (m_type m =? MsgTimeoutNow)
+      && (negb (m_type m =? MsgHup) || negb (self_winsb r))
+      && (negb (m_type m =? MsgRequestPreVoteResponse) || negb (role_eqb (r_state r) PreCandidate)
+          || negb (vote_res_eqb (prevote_tally r m) VoteWon))
+  end.
+
+Fixpoint quiet_runb (r : raft) (ins : list input) : bool :=
+  match ins with
+  | [] => true
+  | i :: rest => quietb r i && match apply_input r i with
+                               | Ok r1 => quiet_runb r1 rest
+                               | Panic _ => true
+                               end
+  end.
+
+Lemma quietb_sound r i : quietb r i = true -> quiet r i.
+Proof.
+  destruct i as [m|]; cbn [quietb quiet].
+  - intros H. apply andb_prop in H. destruct H as [H H4]. apply andb_prop in H. destruct H as [H H3].
+    apply andb_prop in H. destruct H as [H1 H2].
+    split; [|split; [|split]].
+    + apply orb_prop in H1. destruct H1 as [H1|H1]; [|right; right; exact H1].
+      apply orb_prop in H1. destruct H1 as [H1|H1]; [left; apply N.leb_le; exact H1|right; left; exact H1].
+    + apply negb_true_iff, N.eqb_neq in H2. exact H2.
+    + intros T W. rewrite T in H3. change (MsgHup =? MsgHup) with true in H3. cbn [negb orb] in H3.
+      apply negb_true_iff in H3. unfold self_winsb in H3. unfold self_wins in W. rewrite W in H3.
+      discriminate.
+    + intros T S W. rewrite T, S, W in H4. discriminate.
+  - intros H W. unfold self_winsb in H. unfold self_wins in W. rewrite W in H. discriminate.
+Qed.
+
+Lemma quiet_runb_sound : forall ins r, quiet_runb r ins = true -> quiet_run r ins.
+Proof.
+  induction ins as [|i rest IH]; intros r H; cbn [quiet_runb quiet_run] in *; [exact I|].
+  apply andb_prop in H. destruct H as [H1 H2]. split; [apply quietb_sound; exact H1|].
+  intros r1 E. rewrite E in H2. apply IH. exact H2.
+Qed.
+
+Definition leader_safeb (r : raft) (i : input) : bool :=
+  match i with
+  | ITick => negb (r_election_timeout r <=? r_election_elapsed r + 1) || negb (r_check_quorum r)
+             || check_quorum_active r
+  | IStep m => ((m_term m <=? r_term r) || exempt m || lease_drop r m)
+               && (negb (m_type m =? MsgCheckQuorum) || check_quorum_active r)
+  end.
+
+Fixpoint leader_safe_runb (r : raft) (ins : list input) : bool :=
+  match ins with
+  | [] => true
+  | i :: rest => leader_safeb r i && match apply_input r i with
+                                     | Ok r1 => leader_safe_runb r1 rest
+                                     | Panic _ => true
+                                     end
+  end.
+
+Lemma leader_safeb_sound r i : leader_safeb r i = true -> leader_safe r i.
+Proof.
+  destruct i as [m|]; cbn [leader_safeb leader_safe].
+  - intros H. apply andb_prop in H. destruct H as [H1 H2]. split.
+    + apply orb_prop in H1. destruct H1 as [H1|H1]; [|right; right; exact H1].
+      apply orb_prop in H1. destruct H1 as [H1|H1]; [left; apply N.leb_le; exact H1|right; left; exact H1].
+    + intros T. rewrite T in H2. exact H2.
+  - intros H B C. apply N.leb_le in B. rewrite B, C in H. exact H.
+Qed.
+
+Lemma leader_safe_runb_sound : forall ins r, leader_safe_runb r ins = true -> leader_safe_run r ins.
+Proof.
+  induction ins as [|i rest IH]; intros r H; cbn [leader_safe_runb leader_safe_run] in *; [exact I|].
+  apply andb_prop in H. destruct H as [H1 H2]. split; [apply leader_safeb_sound; exact H1|].
+  intros r1 E. rewrite E in H2. apply IH. exact H2.
+Qed.
+
+(* ------------------------------------------------------------------ *)
+(* sample states: three voters 1 2 3, pre_vote and check_quorum on, election timeout 10 *)
+
+Definition xs_ent (ty i t : N) : entry := mkEntry ty t i [] [].
+Definition xs_cs : conf_state := mkCS [1; 2; 3] [] [] [] false.
+(* entries 1..3 of term 1, entry 2 a membership change *)
+Definition xs_store : MemStorage.mem :=
+  mkMem (mkHS 2 0 1) xs_cs [xs_ent 0 1 1; xs_ent 1 2 1; xs_ent 0 3 1] 0 0 false false None.
+Definition xs_log (cmt app : N) : raft_log := mkLog xs_store (u_new 4) cmt 3 app 0.
+Definition xs_pr (m : N) (act : bool) : progress :=
+  mkPr m (m + 1) Replicate false 0 0 act (Inflights.new 256) 0 0.
+Definition xs_prs (a2 a3 : bool) : tracker :=
+  mkTr [(1, xs_pr 3 true); (2, xs_pr 3 a2); (3, xs_pr 3 a3)]
+       (mkConf [1; 2; 3] [] [] [] false) [] 256 false.
+Definition xs_node (id term vote : N) (st : role) (lead : N) (l : raft_log) (prs : tracker) : raft :=
+  mkRaft term vote id [] l 256 1000 0 st true lead None 0 (ro_new 0) 0 0
+         true true false false false 2 10 15 10 20 0%Z u64_max 0 3 u64_max
+         prs [] [12; 13; 14; 16; 11; 17] None.
+
+(* node 3: follower of leader 1 in term 2, everything applied *)
+Definition xs_follower : raft := xs_node 3 2 0 Follower 1 (xs_log 3 3) (xs_prs false false).
+(* node 3 as candidate of term 3 with commit index 1: entry 2 (a membership change) is
+   neither committed nor applied as far as it knows *)
+Definition xs_candidate : raft := xs_node 3 3 3 Candidate 0 (xs_log 1 1) (xs_prs false false).
+(* node 1: leader of term 2 that heard from node 2 *)
+Definition xs_leader : raft := xs_node 1 2 1 Leader 1 (xs_log 3 3) (xs_prs true false).
+
+Definition xs_hup : msg := new_message 0 MsgHup (Some 3).
+Definition xs_prevote_resp (from t : N) (rej : bool) : msg :=
+  msg_default <| m_type := MsgRequestPreVoteResponse |> <| m_from := from |> <| m_to := 3 |>
+              <| m_term := t |> <| m_reject := rej |>.
+Definition xs_prevote_req (from to t idx lt cmt ct : N) : msg :=
+  msg_default <| m_type := MsgRequestPreVote |> <| m_from := from |> <| m_to := to |>
+              <| m_term := t |> <| m_index := idx |> <| m_log_term := lt |>
+              <| m_commit := cmt |> <| m_commit_term := ct |>.
+
+(* node 3 times out, pre-campaigns, is rejected by both peers, times out and
+   pre-campaigns again: eighteen quiet inputs, the term stays 2 *)
+Definition xs_quiet_inputs : list input :=
+  [IStep xs_hup; IStep (xs_prevote_resp 1 2 true); IStep (xs_prevote_resp 2 2 true)]
+  ++ repeat ITick 12 ++ [IStep (xs_prevote_resp 1 2 true)].
+
+Definition xs_hbresp : msg :=
+  msg_default <| m_type := MsgHeartbeatResponse |> <| m_from := 2 |> <| m_to := 1 |> <| m_term := 2 |>.
+
+(* the leader ticks through two election-timeout boundaries, hears from node 2 in
+   between, and meanwhile node 3 sends a pre-vote request of term 3 and a stale vote request *)
+Definition xs_leader_inputs : list input :=
+  repeat ITick 10 ++
+  [IStep xs_hbresp; IStep (xs_prevote_req 3 1 3 3 1 3 1);
+   IStep (msg_default <| m_type := MsgRequestVote |> <| m_from := 3 |> <| m_to := 1 |> <| m_term := 1 |>)]
+  ++ repeat ITick 10.
+
+Lemma xs_quiet_run : quiet_run xs_follower xs_quiet_inputs.
+Proof. apply quiet_runb_sound. vm_compute. reflexivity. Qed.
+
+Lemma xs_quiet_result : exists r', run xs_follower xs_quiet_inputs = Ok r' /\
+  r_term r' = 2 /\ r_vote r' = 0 /\ r_state r' = PreCandidate.
+Proof. vm_compute. eexists. repeat split; reflexivity. Qed.
+
+(* ... whereas one granted response then completes the quorum: Candidate of term 3 *)
+Definition xs_precandidate : raft :=
+  match run xs_follower [IStep xs_hup] with Ok r => r | Panic _ => xs_follower end.
+
+Lemma xs_prevote_won :
+  run xs_follower [IStep xs_hup] = Ok xs_precandidate /\
+  r_state xs_precandidate = PreCandidate /\ r_term xs_precandidate = 2 /\
+  prevote_tally xs_precandidate (xs_prevote_resp 1 3 false) = VoteWon /\
+  exists r'' c, step xs_precandidate (xs_prevote_resp 1 3 false) = Ok (r'', c) /\
+    r_state r'' = Candidate /\ r_term r'' = 3 /\ r_vote r'' = 3.
+Proof.
+  split; [vm_compute; reflexivity|]. split; [vm_compute; reflexivity|].
+  split; [vm_compute; reflexivity|]. split; [vm_compute; reflexivity|].
+  vm_compute. do 2 eexists. repeat split; reflexivity.
+Qed.
+
+Lemma xs_leader_safe_run : leader_safe_run xs_leader xs_leader_inputs.
+Proof. apply leader_safe_runb_sound. vm_compute. reflexivity. Qed.
+
+Lemma xs_leader_result : exists r', run xs_leader xs_leader_inputs = Ok r' /\
+  r_state r' = Leader /\ r_term r' = 2.
+Proof. vm_compute. eexists. repeat split; reflexivity. Qed.
+
+(* without the heartbeat response the second boundary finds no quorum: step-down *)
+Lemma xs_leader_stepdown : exists r', run xs_leader (repeat ITick 20) = Ok r' /\
+  r_state r' = Follower /\ r_term r' = 2.
+Proof. vm_compute. eexists. repeat split; reflexivity. Qed.
+
+(* the pre-vote campaign of node 3 *)
+Lemma xs_campaign : exists r' x1 x2,
+  campaign_pre xs_follower = Ok r' /\ tally xs_follower [(3, true)] = VotePending /\
+  r_state r' = PreCandidate /\ r_term r' = 2 /\ r_vote r' = 0 /\ r_msgs r' = [x1; x2] /\
+  m_to x1 = 1 /\ m_to x2 = 2 /\ m_term x1 = 3 /\ m_term x2 = 3 /\
+  m_type x1 = MsgRequestPreVote /\ m_index x1 = 3 /\ m_log_term x1 = 1.
+Proof. vm_compute. do 3 eexists. repeat split; reflexivity. Qed.
+
+(* the lease: node 3 as follower of leader 1 drops a higher-term pre-vote request, and
+   answers it once the lease has run out *)
+Lemma xs_lease : step xs_follower (xs_prevote_req 2 3 3 3 1 3 1) = Ok (xs_follower, E_OK) /\
+  lease_request xs_follower (xs_prevote_req 2 3 3 3 1 3 1) /\
+  exists r' x, step (xs_follower <| r_election_elapsed := 10 |>) (xs_prevote_req 2 3 3 3 1 3 1)
+               = Ok (r', E_OK) /\
+    r_msgs r' = [x] /\ m_reject x = false /\ m_term x = 3 /\ r_term r' = 2 /\ r_vote r' = 0 /\
+    r_election_elapsed r' = 10 /\ r_leader_id r' = 1.
+Proof.
+  split; [vm_compute; reflexivity|]. split; [split; [right; reflexivity|split; [vm_compute; reflexivity|reflexivity]]|].
+  vm_compute. do 2 eexists. repeat split; reflexivity.
+Qed.
+
+(* REFUTED: "handling a pre-vote request never changes the receiver's role, leader id or
+   election timer".  A Candidate (or PreCandidate) that REJECTS a pre-vote request
+   still takes the commit index from it (maybe_commit_by_vote); if the newly committed
+   range holds a membership change it has not applied, it abandons its campaign:
+   Follower of the same term, timer reset, commit index raised.  Witness: node 3,
+   Candidate of term 3 with commit index 1 and a membership change at index 2; request
+   from node 2 at term 4 with a shorter log (index 2) but commit index 2. *)
+Theorem prevote_req_role_refuted :
+  exists r m r' c x,
+    m_type m = MsgRequestPreVote /\ step r m = Ok (r', c) /\
+    r_state r = Candidate /\ r_state r' = Follower /\
+    r_term r' = r_term r /\ r_vote r' = r_vote r /\
+    r_msgs r' = [x] /\ m_reject x = true /\
+    committed (r_log r) = 1 /\ committed (r_log r') = 2 /\
+    r_randomized_election_timeout r' <> r_randomized_election_timeout r.
+Proof.
+  exists xs_candidate, (xs_prevote_req 2 3 4 2 1 2 1). vm_compute.
+  do 3 eexists. repeat split; try reflexivity. discriminate.
+Qed.
+
+(* ------------------------------------------------------------------ *)
+(* the definitions used in the pinned statements, unfolded (pinned in Props/C16.v so
+   that the statements can be read without this file) *)
+
+Lemma def_tally r v :
+  tally r v = Quorum.tracker_vote_result (incoming (t_conf (r_prs r))) (outgoing (t_conf (r_prs r))) v.
+Proof. reflexivity. Qed.
+
+Lemma def_self_wins r : self_wins r <-> tally r [(r_id r, true)] = VoteWon.
+Proof. reflexivity. Qed.
+
+Lemma def_prevote_tally r m :
+  prevote_tally r m =
+  tally r (Quorum.record_vote (t_votes (r_prs r)) (m_from m) (negb (m_reject m))).
+Proof. reflexivity. Qed.
+
+Lemma def_lease_drop r m :
+  lease_drop r m =
+  ((m_type m =? MsgRequestVote) || (m_type m =? MsgRequestPreVote))
+  && negb (list_eqb (m_context m) CAMPAIGN_TRANSFER)
+  && (r_check_quorum r && negb (r_leader_id r =? INVALID_ID)
+      && (r_election_elapsed r <? r_election_timeout r)).
+Proof. reflexivity. Qed.
+
+Lemma def_exempt m :
+  exempt m = (m_type m =? MsgRequestPreVote)
+             || ((m_type m =? MsgRequestPreVoteResponse) && negb (m_reject m)).
+Proof. reflexivity. Qed.
+
+Lemma def_cfg_of r :
+  cfg_of r = (r_id r, r_pre_vote r, r_check_quorum r, r_election_timeout r, r_heartbeat_timeout r).
+Proof. reflexivity. Qed.
+
+Lemma def_check_quorum_active r :
+  check_quorum_active r = snd (quorum_recently_active (r_prs r) (r_id r)).
+Proof. reflexivity. Qed.
+
+Lemma def_pre_candidate_of r :
+  pre_candidate_of r =
+  r <| r_state := PreCandidate |> <| r_prs := (r_prs r) <| t_votes := [(r_id r, true)] |> |>
+    <| r_leader_id := INVALID_ID |>.
+Proof. reflexivity. Qed.
+
+Lemma def_with_votes r v : with_votes r v = r <| r_prs := (r_prs r) <| t_votes := v |> |>.
+Proof. reflexivity. Qed.
+
+Lemma def_others self ids : others self ids = filter (fun id => negb (id =? self)) ids.
+Proof. reflexivity. Qed.
+
+Lemma def_push r x : push r x = r <| r_msgs := r_msgs r ++ [x] |>.
+Proof. reflexivity. Qed.
+
+Lemma def_vote_resp r m rt reject t ci :
+  vote_resp r m rt reject t ci =
+  msg_default <| m_type := rt |> <| m_to := m_from m |> <| m_from := r_id r |>
+              <| m_term := t |> <| m_reject := reject |>
+              <| m_commit := fst ci |> <| m_commit_term := snd ci |>.
+Proof. reflexivity. Qed.
+
+Lemma def_resp_type m :
+  resp_type m = if m_type m =? MsgRequestVote then MsgRequestVoteResponse
+                else MsgRequestPreVoteResponse.
+Proof. reflexivity. Qed.
+
+Lemma def_grants r m :
+  grants r m =
+  (utd <- is_up_to_date (r_log r) (m_index m) (m_log_term m) ;;
+   Ok (((r_vote r =? m_from m)
+        || ((r_vote r =? INVALID_ID) && (r_leader_id r =? INVALID_ID))
+        || ((m_type m =? MsgRequestPreVote) && (r_term r <? m_term m)))
+       && utd
+       && ((last_index (r_log r) <? m_index m) || (r_priority r <=? get_priority m)%Z))).
+Proof. reflexivity. Qed.
+
+Lemma def_only_msgs_log r r' :
+  only_msgs_log r r' <-> r' = r <| r_msgs := r_msgs r' |> <| r_log := r_log r' |>.
+Proof. reflexivity. Qed.
+
+Lemma def_lease_request r m :
+  lease_request r m <->
+  (m_type m = MsgRequestVote \/ m_type m = MsgRequestPreVote) /\
+  r_term r < m_term m /\ list_eqb (m_context m) CAMPAIGN_TRANSFER = false.
+Proof. reflexivity. Qed.
+
+Lemma def_apply_input r i :
+  apply_input r i = match i with
+                    | IStep m => x <- step r m ;; Ok (fst x)
+                    | ITick => x <- tick r ;; Ok (fst x)
+                    end.
+Proof. reflexivity. Qed.
+
+Lemma def_run r ins :
+  run r ins = match ins with
+              | [] => Ok r
+              | i :: rest => r1 <- apply_input r i ;; run r1 rest
+              end.
+Proof. destruct ins; reflexivity. Qed.
+
+Lemma def_quiet r i :
+  quiet r i <->
+  match i with
+  | ITick => ~ self_wins r
+  | IStep m =>
+      (m_term m <= r_term r \/ exempt m = true \/ lease_drop r m = true) /\
+      m_type m <> MsgTimeoutNow /\
+      (m_type m = MsgHup -> ~ self_wins r) /\
+      (m_type m = MsgRequestPreVoteResponse -> r_state r = PreCandidate ->
+       prevote_tally r m <> VoteWon)
+  end.
+Proof. destruct i; reflexivity. Qed.
+
+Lemma def_quiet_run r ins :
+  quiet_run r ins <->
+  match ins with
+  | [] => True
+  | i :: rest => quiet r i /\ forall r1, apply_input r i = Ok r1 -> quiet_run r1 rest
+  end.
+Proof. destruct ins; reflexivity. Qed.
+
+Lemma def_leader_safe r i :
+  leader_safe r i <->
+  match i with
+  | ITick => r_election_timeout r <= r_election_elapsed r + 1 -> r_check_quorum r = true ->
+             check_quorum_active r = true
+  | IStep m => (m_term m <= r_term r \/ exempt m = true \/ lease_drop r m = true) /\
+               (m_type m = MsgCheckQuorum -> check_quorum_active r = true)
+  end.
+Proof. destruct i; reflexivity. Qed.
+
+Lemma def_leader_safe_run r ins :
+  leader_safe_run r ins <->
+  match ins with
+  | [] => True
+  | i :: rest => leader_safe r i /\ forall r1, apply_input r i = Ok r1 -> leader_safe_run r1 rest
+  end.
+Proof. destruct ins; reflexivity. Qed.
+
+Lemma def_vote_req self l prio vm t c ct tr lt id :
+  vote_req self l prio vm t c ct tr lt id =
+  let m := msg_default <| m_type := vm |> <| m_to := id |> <| m_from := self |> <| m_term := t |>
+             <| m_index := last_index l |> <| m_log_term := lt |>
+             <| m_commit := c |> <| m_commit_term := ct |>
+             <| m_context := if tr then CAMPAIGN_TRANSFER else [] |> <| m_priority := prio |> in
+  if (0 <? prio)%Z then m <| m_deprecated_priority := Z.to_N prio |> else m.
+Proof. unfold vote_req. destruct tr; destruct (0 <? prio)%Z; reflexivity. Qed.
